@@ -1587,6 +1587,13 @@ def rule_unquote_delimiters(cm, rep, rid):
                     bad = bad or x
             if isinstance(x, ast.Compare) and 'len(%s)' % p in norm(x) and ('- 1' in norm(x) or '-1' in norm(x)):
                 good = good or x
+        recode = [x for x in own_nodes_ordered(m.node) if isinstance(x, ast.Call) and
+                  any(w in norm(x.func) for w in ('decode', 'encode', 'literal_eval', 'eval', 'loads', 'unescape', 'normalize', 'translate', 'casefold', 'lower', 'upper'))]
+        if recode:
+            rep.violation(rid, key + ':recode', 'the text of a quoted atom is re-interpreted on the way (%s): characters of the name are replaced '
+                          'by others (an escape decoder turns every non-ASCII character into something else), so the literal denotes a '
+                          'different atom than it spells' % norm(recode[0])[:50], m.loc(recode[0]))
+            continue
         if bad is not None:
             rep.violation(rid, key, 'the quotes of a quoted atom are removed with %s, which removes more than the two delimiters when the '
                           'name itself begins or ends with a quote (the source literal then denotes a different atom)' % norm(bad)[:50], m.loc(bad))
